@@ -42,7 +42,7 @@ CHECKS = {
     'C19': dict(
         level='exploration',
         units=[U('^TestC19$', (8, 15000), (16, 150000))],
-        essential_labels=['kind:log', 'kind:linear', 'kind:cubic', 'non-default-offset', 'pair:cross-kind', 'pair:near-alpha', 'pair:offset', 'sequence-of-reads'],
+        essential_labels=['kind:log', 'kind:linear', 'kind:cubic', 'non-default-offset', 'pair:cross-kind', 'pair:near-alpha', 'pair:offset', 'pair:offset-near-tolerance', 'sequence-of-reads'],
         assumptions=COMMON_ASSUMPTIONS + ["refdec reads kind/gamma/offset from the binary block independently of the repository's decoder"],
     ),
     'C20': dict(
@@ -117,7 +117,7 @@ CHECKS = {
     'C13': dict(
         level='exploration',
         units=[U('^TestC13$', (8, 12000), (16, 100000))],
-        essential_labels=['refused-add', 'refused-quantile', 'refused-merge', 'refused-reweight', 'refused-reweight-store-level', 'refused-constructor', 'accept-at-boundary', 'state:empty', 'state:non-empty', 'variant:exact', 'variant:plain', 'mismatch:kind', 'mismatch:alpha', 'mismatch:offset'],
+        essential_labels=['refused-add', 'refused-quantile', 'refused-merge', 'refused-reweight', 'refused-reweight-store-level', 'refused-constructor', 'accept-at-boundary', 'state:empty', 'state:non-empty', 'variant:exact', 'variant:plain', 'mismatch:kind', 'mismatch:alpha', 'mismatch:offset', 'near-equal-mapping-decoded'],
         assumptions=COMMON_ASSUMPTIONS + ["NaN weights/factors/constructor parameters are outside the property", "AddWithCount(invalid value, 0) on the exact variant may return nil or the error; only 'changes nothing' is required"],
     ),
     'C14': dict(
